@@ -5,20 +5,34 @@
    admissible schedule of one graph: any task whose dependencies are done may run next.
    TLC enumerates (small graphs) or samples (-simulate) the linear extensions and prints them;
    a custom scheduler then executes the real tasks in exactly that order.                   *)
-EXTENDS Integers, Sequences, FiniteSets, TLC, Json, IOUtils
+EXTENDS Integers, Sequences, FiniteSets, TLC, Json, IOUtils, SequencesExt
 
 Graphs == JsonDeserialize(IOEnv.GRAPH_FILE).graphs       \* sequence of [n, deps]
 DepsOf(g, t) == {Graphs[g].deps[t][i] : i \in DOMAIN Graphs[g].deps[t]}
 
-VARIABLES g, done, order
-vars == <<g, done, order>>
+CONSTANTS K,              \* number of sampled schedules per graph (SpecSampled); 1 for the exhaustive Spec
+          Seed            \* seed of the draw in SpecSampled
+VARIABLES g, k, done, order
+vars == <<g, k, done, order>>
 
-Init == g \in DOMAIN Graphs /\ done = {} /\ order = <<>>
+Init == g \in DOMAIN Graphs /\ k \in 1..K /\ done = {} /\ order = <<>>
 Run(t) == /\ t \notin done /\ DepsOf(g, t) \subseteq done
-          /\ done' = done \cup {t} /\ order' = Append(order, t) /\ UNCHANGED g
+          /\ done' = done \cup {t} /\ order' = Append(order, t) /\ UNCHANGED <<g, k>>
 Next == /\ \E t \in 1..Graphs[g].n : Run(t)
         /\ (Cardinality(done') = Graphs[g].n => PrintT(<<"O", g, order'>>))
 Spec == Init /\ [][Next]_vars
+\* one pseudo-random admissible schedule per (graph, k): the same steps, the runnable task drawn (reproducibly, from Seed, the
+\* graph, k and the history) instead of branched on - every behaviour of SpecSampled is a behaviour of Spec.  (Big graphs: one
+\* path of n states instead of a simulation that generates every successor of every visited state.)
+Runnable == {t \in 1..Graphs[g].n : t \notin done /\ DepsOf(g, t) \subseteq done}
+M == 65521
+Mix(x, y) == (x * 31 + y) % M
+Draw == LET last == IF order = <<>> THEN 0 ELSE order[Len(order)]
+            r == Mix(Mix(Mix(Mix(Mix(Seed % M, g), k * 7919), Len(order) * 104729), last * 1299709), Cardinality(Runnable))
+            q == SetToSortSeq(Runnable, <) IN q[(r % Len(q)) + 1]
+NextSampled == /\ Runnable # {} /\ Run(Draw)
+               /\ (Cardinality(done') = Graphs[g].n => PrintT(<<"O", g, order'>>))
+SpecSampled == Init /\ [][NextSampled]_vars
 
 \* every prefix of a schedule is dependency closed; a finished schedule runs every task once
 DepClosed == \A t \in done : DepsOf(g, t) \subseteq done
